@@ -53,7 +53,9 @@ def c18_jobs(tier):
 
 
 def c16_jobs(tier):
-    return [sim("c16-crashpoints", "c16", require_counters=["abandoned_mid_flight", "abandoned_with_full_mailbox_seen", "dropped_while_parked", "names_reused_after_abandonment"])]
+    return [sim("c16-crashpoints", "c16", require_counters=["abandoned_mid_flight", "abandoned_with_full_mailbox_seen", "dropped_while_parked", "names_reused_after_abandonment"]),
+            # an abandoned DeleteSubscription followed at once by a create of the same name, with the push loop running
+            sim("c16-lifecycle", "c14r", require_counters=["recreated_behind_an_abandoned_delete"], require_nontrivial=False)]
 
 
 def c14_jobs(tier):
